@@ -284,23 +284,26 @@ class PSBT:
                 for sec, sig in psbt_in.sigs.items():
                     point = S256Point.parse(sec)
                     signature = Signature.parse(sig[:-1])
+                    # the last byte of a partial signature is the hash type it signs for
+                    hash_type = sig[-1]
                     if psbt_in.prev_out:
                         # segwit
-                        if not self.tx_obj.check_sig_segwit(
+                        z = self.tx_obj.sig_hash_bip143(
                             i,
-                            point,
-                            signature,
                             psbt_in.redeem_script,
                             psbt_in.witness_script,
-                        ):
+                            hash_type=hash_type,
+                        )
+                        if not point.verify(z, signature):
                             raise ValueError(
                                 "segwit signature provided does not validate"
                             )
                     elif psbt_in.prev_tx:
                         # legacy
-                        if not self.tx_obj.check_sig_legacy(
-                            i, point, signature, psbt_in.redeem_script
-                        ):
+                        z = self.tx_obj.sig_hash_legacy(
+                            i, psbt_in.redeem_script, hash_type=hash_type
+                        )
+                        if not point.verify(z, signature):
                             raise ValueError(
                                 f"legacy signature provided does not validate {self}"
                             )
